@@ -16,7 +16,7 @@ Require Import PyBase Container Alias.
 Require Import ExtrOcamlBasic ExtrOcamlString.
 Extraction Language OCaml.
 Extraction "%(out)s" np_step np_init_model init_vc values_shape size_of nbytes_own
-  alias_construct alias_step export alias_init_model alias_getitem alias_getattr_var read alias_read reg_names string_of_Z.
+  alias_construct alias_step export alias_init_model alias_getitem alias_getattr_var read alias_read reg_names reindex_with np_fill resolve string_of_Z.
 '''
 
 DRIVER_ML = r'''
@@ -175,19 +175,32 @@ let names_of sx = List.map name_of (list_of sx)
 let ivs_of sx = List.map (function L [nm; v] -> (name_of nm, operand_of v) | _ -> failwith "iv") (list_of sx)
 let kind_of k extra = match k with "model" -> CModel | "linker" -> CLinker (nat_of_int extra) | _ -> failwith "kind"
 
+(* final reindex onto another span: the model's reindex_with on the final state *)
+let final_state stepf s0 opl = List.fold_left (fun s o -> match o with None -> s | Some o -> fst (stepf o s)) s0 opl
+let jreindex rn rx sfin =
+  match rx with
+  | A "-" -> ""
+  | rx -> (match reindex_with rn (np_fill sfin.kind) (List.map z_of_sx (list_of rx)) sfin with
+           | Ret s' -> ",\"reindex\":" ^ jstate s'
+           | Raise e -> ",\"reindex\":" ^ jstr (exn_name e))
 let handle line =
   match parse (tokenize line) with
-  | L [A "vc"; sp; st; ops] ->
+  | L [A "vc"; sp; st; ops; rx] ->
       let s0 = init_vc (List.map z_of_sx (list_of sp)) (int_of_sx st <> 0) in
-      "{\"init\":\"ok\",\"st0\":" ^ jstate s0 ^ ",\"steps\":[" ^ String.concat "," (run_ops np_step read s0 (List.map op_of_opt (list_of ops))) ^ "]}"
-  | L [A (("model" | "linker") as k); extra; sp; st; d; dflt; nms; ivs; ops] ->
+      let opl = List.map op_of_opt (list_of ops) in
+      "{\"init\":\"ok\",\"st0\":" ^ jstate s0 ^ ",\"steps\":[" ^ String.concat "," (run_ops np_step read s0 opl) ^ "]"
+      ^ jreindex (fun x -> x) rx (final_state np_step s0 opl) ^ "}"
+  | L [A (("model" | "linker") as k); extra; sp; st; d; dflt; nms; ivs; ops; rx] ->
       let dr = match dreq_of d with Some x -> x | None -> failwith "dreq" in
       let (s0, out) = np_init_model (kind_of k (int_of_sx extra)) (List.map z_of_sx (list_of sp)) (int_of_sx st <> 0) dr
           (operand_of dflt) (names_of nms) (ivs_of ivs) in
       (match out with
        | Raise _ -> "{\"init\":" ^ jout out ^ ",\"steps\":[]}"
-       | Ret _ -> "{\"init\":\"ok\",\"st0\":" ^ jstate s0 ^ ",\"steps\":[" ^ String.concat "," (run_ops np_step read s0 (List.map op_of_opt (list_of ops))) ^ "]}")
-  | L [A "alias"; A k; extra; al; pref; sp; st; d; dflt; nms; ivs; ops; reads] ->
+       | Ret _ ->
+           let opl = List.map op_of_opt (list_of ops) in
+           "{\"init\":\"ok\",\"st0\":" ^ jstate s0 ^ ",\"steps\":[" ^ String.concat "," (run_ops np_step read s0 opl) ^ "]"
+           ^ jreindex (fun x -> x) rx (final_state np_step s0 opl) ^ "}")
+  | L [A "alias"; A k; extra; al; pref; sp; st; d; dflt; nms; ivs; ops; reads; rx] ->
       (* AliasMixin over a model / linker: constructor, ops through aliases, renamed export *)
       let dr = match dreq_of d with Some x -> x | None -> failwith "dreq" in
       (match alias_construct (aliases_of al) (names_of pref) with
@@ -210,7 +223,7 @@ let handle line =
                     | L [A "a"; nm] -> jres (alias_getattr_var am (name_of nm) sfin)
                     | _ -> failwith "read") (list_of reads) in
                 "{\"init\":\"ok\"," ^ amj ^ ",\"st0\":" ^ jstate s0 ^ ",\"steps\":[" ^ String.concat "," steps ^ "],\"export\":" ^ ren
-                ^ ",\"reads\":[" ^ String.concat "," rds ^ "]}"))
+                ^ ",\"reads\":[" ^ String.concat "," rds ^ "]" ^ jreindex (resolve am) rx sfin ^ "}"))
   | _ -> failwith "case"
 
 let () =
@@ -390,18 +403,19 @@ def enc_case(case, hints):
     """hints[i] = difflib's recorded answer for op i (None when not asked)."""
     ops = '(%s)' % ' '.join(enc_op(o, hints[i] if i < len(hints) else None) for i, o in enumerate(case['ops']))
     sp = '(%s)' % ' '.join(str(x) for x in case['span'])
+    rx = '(%s)' % ' '.join(str(x) for x in case['rx']) if case.get('rx') is not None else '-'
     if case['kind'] == 'vc':
-        return '(vc %s %d %s)' % (sp, 1 if case['strict'] else 0, ops)
+        return '(vc %s %d %s %s)' % (sp, 1 if case['strict'] else 0, ops, rx)
     tail = '%s %d %s %s (%s) (%s) %s' % (sp, 1 if case['strict'] else 0, case['dreq'], enc_operand(case['default']),
                                          ' '.join(xname(x) for x in case['names']),
                                          ' '.join('(%s %s)' % (xname(k), enc_operand(v)) for k, v in case['ivs']), ops)
     if 'aliases' in case:
         reads = ' '.join('(a %s)' % xname(r[1]) if r[0] == 'a' else '(g %s)' % enc_key(r[1]) for r in case.get('reads', []))
-        return '(alias %s %d (%s) (%s) %s (%s))' % (
+        return '(alias %s %d (%s) (%s) %s (%s) %s)' % (
             case['kind'], case.get('extra', 0),
             ' '.join('(%s %s)' % (xname(k), xname(v)) for k, v in case['aliases']),
-            ' '.join(xname(x) for x in case['preferred']), tail, reads)
-    return '(%s %d %s)' % (case['kind'], case.get('extra', 0), tail)
+            ' '.join(xname(x) for x in case['preferred']), tail, reads, rx)
+    return '(%s %d %s %s)' % (case['kind'], case.get('extra', 0), tail, rx)
 
 
 # --------------------------------------------------------------------------- real side: Python values of operands
@@ -788,7 +802,19 @@ def impl_run(case):
         if 'ret' in info:
             step['ret'] = info['ret']
         res['steps'].append(step)
+    if case.get('rx') is not None:
+        res['reindex'] = reindex_observation(obj, case['rx'], declared)
     return res
+
+
+def reindex_observation(obj, rx, declared):
+    """obj.reindex(rx) on the real object: the canonical state of the result, or the class it raises."""
+    try:
+        return observe(obj.reindex(list(rx)), declared)
+    except BaseException as e:             # noqa: BLE001
+        if isinstance(e, (KeyboardInterrupt, SystemExit, MemoryError)):
+            raise
+        return type(e).__name__
 
 
 def diff_state(a, b):
@@ -820,4 +846,17 @@ def compare(model_res, impl_res):
             return 'after op %d: %s' % (i, d)
     if len(model_res['steps']) != len(impl_res['steps']):
         return 'different number of steps'
-    return None
+    return compare_reindex(model_res, impl_res)
+
+
+def compare_reindex(model_res, impl_res):
+    m, r = model_res.get('reindex'), impl_res.get('reindex')
+    if m is None and r is None:
+        return None
+    final = impl_res['steps'][-1]['st'] if impl_res.get('steps') else impl_res.get('st0', {})
+    if 'copy' in final.get('adict', []):
+        return None                   # an ad hoc attribute called `copy` hides the method reindex() relies on: not a reindex of a container
+    if isinstance(m, dict) and isinstance(r, dict):
+        d = diff_state(m, r)
+        return 'reindex(): ' + d if d else None
+    return None if m == r else 'reindex(): model=%s impl=%s' % (str(m)[:100], str(r)[:100])
